@@ -81,10 +81,10 @@ def ledger_diff(a, b, rel=1e-12, abs_=0.0):
         x, y = a.get(k, 0.0), b.get(k, 0.0)
         d = abs(x - y)
         tol = abs_ + rel * max(abs(x), abs(y))
-        if d > tol:
+        if not d <= tol:                      # (written so that a nan flow counts as a difference)
             bad.append((k, x, y))
         m = max(abs(x), abs(y))
-        if m: worst = max(worst, d / m)
+        if m and d == d: worst = max(worst, d / m)
     return bad, worst
 
 
